@@ -79,7 +79,11 @@ LastMarker(src) == AtFault(src, {}).mark
 IsLineMacro(kind) == kind \in {"linemacro", "linemacroeol"}
 FaultOffset(kind) == CASE kind = "parse" -> 10      \* vd__q = 1 ) ;      the stray ")"
                        [] kind = "runtime" -> 10    \* vd__q = 1 + "a";   the "+"
+                       [] kind = "runtimeexit" -> 20 \* vd__q = {vd__a = 1; 5} count [1];   the "5": the block has run to its end when
+                                                     \* count finds its value is no boolean - the culprit is the block's last expression
                        [] OTHER -> 0
+\* the stack-trace entries of the calling frames name the call site (the same token unless the fault is raised inside a block)
+CallOffset(kind) == IF kind = "runtimeexit" THEN 23 ELSE FaultOffset(kind)      \* ... the "count"
 \* pre = 1: a statement holding a string with an escaped quote stands in front of the fault on the same line
 PreText == "vd__s = \"p\"\"q\"; "
 PreLen == 16
@@ -93,6 +97,7 @@ LinePreservedModel(src, dev) == Believed(src, dev) = Origin(src)
 LinePreserved(src, pos) == pos.L = Origin(src).line
 FilePreserved(src, pos) == pos.file = Origin(src).file
 ColumnPreserved(src, pos) == pos.C = FaultCol(src)
+CallColumnPreserved(src, pos) == pos.C = FaultCol(src) - FaultOffset(src.fault.kind) + CallOffset(src.fault.kind)
 \* __LINE__ / __FILE__ expand to where they are written
 LineMacro(src, lm) == lm.L = Origin(src).line
 FileMacro(src, lm) == lm.file = Origin(src).file
@@ -106,6 +111,7 @@ RECURSIVE Rep(_, _)
 Rep(s, n) == IF n <= 0 THEN "" ELSE s \o Rep(s, n - 1)
 FaultText(f, nl) == Pad(f.pad) \o (IF f.pre = 1 THEN PreText ELSE "") \o (CASE f.kind = "parse" -> "vd__q = 1 ) ;"
                                  [] f.kind = "runtime" -> "vd__q = 1 + \"a\";"
+                                 [] f.kind = "runtimeexit" -> "vd__q = {vd__a = 1; 5} count [1];"
                                  [] f.kind = "linemacroeol" -> "vd__m = [__LINE__" \o nl \o ", __FILE__];"
                                  [] OTHER -> "vd__m = [__LINE__, __FILE__];")
 \* text of an element, every physical line terminated by nl
